@@ -366,6 +366,36 @@ def check(ctx):
     if P.has_cls('PartProcessor'):
         resource_wait(ctx, o)
 
+    # ---- C03.12 every candidate is offered ----------------------------------------------------------------------
+    o = Ob('C03.12', 'K2', 'in every hand-over loop each downstream candidate is offered the part: no path through an iteration skips the give_part call '
+                           '(a refusal of an earlier part says nothing about the next one)')
+    obs.append(o)
+    seen12 = set()
+    for c in dv.device_classes(P):
+        for k in c.mro:
+            for nm, fn in k.methods.items():
+                loops = [l for l in ast.walk(fn) if isinstance(l, ast.For) and isinstance(l.target, ast.Name) and any(
+                    isinstance(x, ast.Call) and call_attr(x) == 'give_part' and isinstance(x.func.value, ast.Name) and x.func.value.id == l.target.id for x in ast.walk(l))]
+                if not loops or P.lookup(c, nm) is None or P.lookup(c, nm)[2] is not fn or (k.qual, nm) in seen12:
+                    continue
+                seen12.add((k.qual, nm))
+                g = ctx.graph(c, nm)
+                for lp in loops:
+                    heads = [n for n in g.nodes.values() if n.kind == 'for' and n.ast is lp]
+                    for h in heads:
+                        o.count()
+                        offers = {n.id for n in g.nodes.values() if n.frame is h.frame and any(
+                            call_attr(x) == 'give_part' and isinstance(x.func, ast.Attribute) and isinstance(x.func.value, ast.Name) and x.func.value.id == lp.target.id
+                            for x in ([n.ast] if n.kind == 'cond' and isinstance(n.ast, ast.Call) else calls_at(g, n)))}
+                        body_starts = [m for l, m in g.succ[h.id] if l == 'T']
+                        skipped = h.id in g.reach(body_starts, avoid=frozenset(offers), follow=lambda l: l != 'exc')
+                        if not offers or skipped:
+                            o.fail(P, f'{k.name}.{nm}', lp, 'an iteration of the hand-over loop can go on to the next candidate without offering the part to this one: '
+                                   'a downstream that would accept the part is never asked', node=h)
+                        else:
+                            o.witness((k.name, nm))
+    o.require(len(o.nontrivial) >= 3, 'fewer than 3 hand-over loops found')
+
     # ---- C03.11 restore ---------------------------------------------------------------------------------------
     o = Ob('C03.11', 'K2', 'a restored machine re-offers a finished part and announces free space whatever the waiting flag says '
                            '(notifications that arrived while it was down were ignored)')
